@@ -109,12 +109,49 @@ def r24_2(ctx, rep):
     if chain_lits is None:
         raise AnalysisError(R, "prefix dispatch not found in SympyGenerator.exitClass")
     allowed = _grammar_prefixes(ctx, R) | {"state"}
+    # the test in front of the dispatch ("no classifying prefix -> variables"), evaluated for a symbol with one prefix
+    top = None
+    for lp in walk_local(fn):
+        if isinstance(lp, ast.For) and isinstance(lp.iter, ast.Name) and isinstance(lp.target, ast.Name):
+            for st in lp.body:
+                if isinstance(st, ast.If) and any(isinstance(x, ast.For) and norm(x.iter).endswith(".prefixes") for x in st.orelse) \
+                        and any("variables" in norm(x) for x in st.body):
+                    top = (st.test, lp.target.id)
     for pfx in sorted(allowed):
-        rep.ob(R, site, "prefix %s" % pfx, has_else or pfx in chain_lits,
+        to_variables = top is not None and _no_class_test(top[0], top[1], [pfx]) is True
+        rep.ob(R, site, "prefix %s" % pfx, has_else or pfx in chain_lits or to_variables,
                "a symbol whose only prefix is `%s` reaches no list: the generated module uses a name it never defines" % pfx)
-    # a symbol without prefixes goes to the variables list
-    ok = any(isinstance(n, ast.If) and norm(n.test) in ("len(s.prefixes) == 0", "not s.prefixes") for n in walk_local(fn))
+    ok = top is not None and _no_class_test(top[0], top[1], []) is True
     rep.ob(R, site, "no prefixes -> variables", ok, "a symbol without prefixes must be listed as a variable")
+    # and a classifying prefix must not be swallowed by that test
+    for pfx in chain_lits:
+        if top is not None and _no_class_test(top[0], top[1], [pfx]) is not False:
+            rep.ob(R, site, "prefix %s dispatched" % pfx, False, "a symbol with prefix `%s` is sent to the variables list instead of its own list" % pfx)
+
+
+def _no_class_test(test, var, prefixes):
+    """Evaluate the 'symbol has no classifying prefix' test for s.prefixes == prefixes (None = unknown form)."""
+    pv = var + ".prefixes"
+    t = norm(test)
+    if t in ("len(%s) == 0" % pv, "not %s" % pv):
+        return len(prefixes) == 0
+    if isinstance(test, ast.UnaryOp) and isinstance(test.op, ast.Not):
+        inner = test.operand
+        if isinstance(inner, ast.BinOp) and isinstance(inner.op, ast.BitAnd):
+            for a, b in ((inner.left, inner.right), (inner.right, inner.left)):
+                lit = literal(a)
+                if isinstance(lit, (set, list, tuple)) and norm(b) == "set(%s)" % pv:
+                    return not (set(lit) & set(prefixes))
+        if isinstance(inner, ast.Call) and is_name(inner.func, "any") and inner.args and isinstance(inner.args[0], ast.GeneratorExp):
+            g = inner.args[0]
+            lit = literal(g.generators[0].iter)
+            if isinstance(lit, (set, list, tuple)) and norm(g.elt) == "%s in %s" % (g.generators[0].target.id, pv):
+                return not (set(lit) & set(prefixes))
+    if isinstance(test, ast.Call) and isinstance(test.func, ast.Attribute) and test.func.attr == "isdisjoint" and norm(test.func.value) == "set(%s)" % pv:
+        lit = literal(test.args[0])
+        if isinstance(lit, (set, list, tuple)):
+            return not (set(lit) & set(prefixes))
+    return None
 
 
 @SPEC.rule(
